@@ -938,10 +938,11 @@ class Curve(SplineGeometry):
 
     def reverse(self):
         """ Reverses the curve """
-        self._control_points = list(reversed(self._control_points))
-        # Reflect the knots on the range of the knot vector (which starts at 0 only if the knot vector is normalized)
+        # Reflect the knots on the range of the knot vector (which starts at 0 only if the knot vector is normalized). The
+        # new knot vector is worked out before the curve is touched: a curve which has no knot vector yet is left as it is.
         sum_k = self.knotvector[0] + self.knotvector[-1]
         new_kv = [sum_k - k for k in self.knotvector]
+        self._control_points = list(reversed(self._control_points))
         self._knot_vector[0] = list(reversed(new_kv))
         self.reset(evalpts=True)
 
